@@ -578,14 +578,17 @@ static int setService(HttpAsyncCtx *clientCtx, const char *url, const char *user
 	}
 
 	if (clientCtx->url) KSI_free(clientCtx->url);
+	clientCtx->url = NULL;
 	res = KSI_strdup(url, &clientCtx->url);
 	if (res != KSI_OK) goto cleanup;
 
 	if (clientCtx->ksi_user) KSI_free(clientCtx->ksi_user);
+	clientCtx->ksi_user = NULL;
 	res = KSI_strdup(user, &clientCtx->ksi_user);
 	if (res != KSI_OK) goto cleanup;
 
 	if (clientCtx->ksi_pass) KSI_free(clientCtx->ksi_pass);
+	clientCtx->ksi_pass = NULL;
 	res = KSI_strdup(pass, &clientCtx->ksi_pass);
 	if (res != KSI_OK) goto cleanup;
 
